@@ -46,6 +46,10 @@ const preludeBase = `(set-logic ALL)
 (declare-fun tfield (Int Str) Bool)
 (declare-fun texported (Int Str) Bool)
 (declare-fun tnumfield (Int) Int)
+(declare-fun spellsint (Str) Bool)
+(declare-fun parseint (Str) Int)
+(declare-fun spellsflt (Str) Bool)
+(declare-fun parseflt (Str) Flt)
 (declare-fun tviaptr (Int Str) Bool)
 (declare-fun sprint1 (Val) Str)
 (declare-fun sprintf5 (Str Val Val Val Val Val) Str)
